@@ -39,6 +39,8 @@ def apply_gate(qc, g):
         qc.swap(w[0], w[1])
     elif cls == "CP":
         qc.cp(g["m"] * 2 * math.pi / 16, w[0], w[1])
+    elif cls == "P":
+        qc.append(G.P(), [w[0]], g["m"] * 2 * math.pi / 16)
     elif cls == "Barrier":
         qc.barrier()
     elif cls == "I":
